@@ -1575,3 +1575,12 @@ M('C05','iterate-lazy-values','kvstore/mapdb/synced_map.go','''		if !consume([]b
 			continue
 		}
 		if !consume([]byte(key)[len(realm):], value) {''','atomic/one-section-per-operation kvstore/mapdb.syncedKVMap.iterate')
+M('C19','leftshift-ordering-check','core/safemath/safe_math.go','''	if result>>shift != val {''','''	if result < val {''','wrap/round-trip-validated val<<shift in core/safemath.SafeLeftShift')
+M('C19','muldiv-fast-path','core/safemath/safe_math.go','''	prodHi, prodLo := bits.Mul64(x, y)
+''','''	if bits.LeadingZeros64(x)+bits.LeadingZeros64(y) >= 63 {
+		return (x * y) / div, nil
+	}
+
+	prodHi, prodLo := bits.Mul64(x, y)
+''','wrap/round-trip-validated x*y in core/safemath.Safe64MulDiv')
+M('C19','silent-mul-check-flipped-operands','core/safemath/safe_math.go','''	if result/x != y {''','''	if y != result/x {''','',silent=True)
